@@ -6,6 +6,7 @@ import (
 	"fmt"
 
 	"go.lstv.dev/util/size"
+	"verif/firstuse"
 	"verif/libdefaults"
 	"verif/mc"
 	"verif/oracle"
@@ -184,6 +185,7 @@ func probeHist(h histArg) (string, string) {
 func main() {
 	mc.Main("C04", "every value of the stated alphabet x all 8 Disable* configurations x {MarshalText->UnmarshalText, MarshalJSON->UnmarshalJSON, json.Marshal->json.Unmarshal of struct/pointer/slice/map containers, indented documents, String/PrettyString -> DefaultParser}; "+
 		"non-trivial = value is shortened to a unit above B or has more than three digits", func(r *mc.Run) {
+		firstuse.Phase(r, map[string][]string{"size": {"marshal", "parse", "json", "format"}})
 		r.Reset = reset
 		reset()
 		p := mc.NewProbe(r, "marshal_roundtrip", setup, probe)
